@@ -773,12 +773,14 @@ Theorem diversity_refill_le_max : forall maxp m unique,
   truthy_max maxp = Some m -> unique <= m -> diversity_refill maxp unique <= m.
 Proof.
   intros maxp m unique E H. unfold diversity_refill, diversity_target. rewrite E.
-  destruct (Z.ltb unique (Z.min MIN_POP_SIZE m)); lia.
+  destruct (Z.ltb 0 unique && Z.ltb unique (Z.min MIN_POP_SIZE m)); lia.
 Qed.
 
 Theorem diversity_refill_ge : forall maxp unique, unique <= diversity_refill maxp unique.
 Proof.
-  intros. unfold diversity_refill. destruct (Z.ltb unique (diversity_target maxp)) eqn:E; [apply Z.ltb_lt in E|]; lia.
+  intros. unfold diversity_refill.
+  destruct (Z.ltb 0 unique && Z.ltb unique (diversity_target maxp)) eqn:E; [|lia].
+  apply andb_true_iff in E as [_ E]. apply Z.ltb_lt in E. lia.
 Qed.
 
 Lemma diversity_refill_pinned_refuted : exists m unique, unique <= m /\ m < diversity_refill_pinned unique.
@@ -788,4 +790,65 @@ Theorem model_diversity_holds : forall maxp unique, uholds (UDiversity maxp uniq
 Proof.
   intros. cbn [uholds]. destruct (truthy_max maxp) as [m|] eqn:E; [|reflexivity].
   apply implb_true_iff. intro H. apply Z.leb_le in H. apply Z.leb_le. apply (diversity_refill_le_max _ _ _ E H).
+Qed.
+
+Local Open Scope nat_scope.
+
+(* ------------------------------------------------------------------------------------- *)
+(* reflection: the boolean clauses evaluated on observed runs decide the stated properties *)
+(* ------------------------------------------------------------------------------------- *)
+Lemma h_generations_spec : forall r,
+  h_generations r = true <->
+  (forall n, nog (r_lim r) = Some n ->
+     List.length (r_evolved_sizes r) <= n /\ r_started r <= n /\ r_iters r <= n).
+Proof.
+  intro r. unfold h_generations. destruct (nog (r_lim r)) as [n|]; split; intro H.
+  - intros n' E. inversion E; subst n'. apply andb_true_iff in H as [H H3]. apply andb_true_iff in H as [H1 H2].
+    apply Nat.leb_le in H1, H2, H3. repeat split; assumption.
+  - destruct (H n eq_refl) as [H1 [H2 H3]]. apply Nat.leb_le in H1, H2, H3. rewrite H1, H2, H3. reflexivity.
+  - intros n E. discriminate.
+  - reflexivity.
+Qed.
+
+Lemma h_max_pop_spec : forall r,
+  h_max_pop r = true <->
+  (forall m, truthy_max (r_maxpop r) = Some m -> forall n, In n (r_evolved_sizes r) -> (Z.of_nat n <= m)%Z).
+Proof.
+  intro r. unfold h_max_pop. destruct (truthy_max (r_maxpop r)) as [m|]; split; intro H.
+  - intros m' E n Hin. inversion E; subst m'. rewrite forallb_forall in H. apply Z.leb_le. exact (H n Hin).
+  - apply forallb_forall. intros n Hin. apply Z.leb_le. exact (H m eq_refl n Hin).
+  - intros m E. discriminate.
+  - reflexivity.
+Qed.
+
+Lemma h_zero_budget_spec : forall r,
+  h_zero_budget r = true <->
+  (forall t, tmo (r_lim r) = Some t -> (t <= 0)%Q ->
+     r_evolved_sizes r = [] /\ r_started r = 0 /\ r_iters r = 0 /\ (r_wall_ms r <= PROMPT_MS)%Z).
+Proof.
+  intro r. unfold h_zero_budget. destruct (tmo (r_lim r)) as [t|]; split; intro H.
+  - intros t' E L. inversion E; subst t'. apply Qle_bool_iff in L. rewrite L in H. cbn [implb] in H.
+    apply andb_true_iff in H as [H H4]. apply andb_true_iff in H as [H H3]. apply andb_true_iff in H as [H1 H2].
+    apply Nat.eqb_eq in H1, H2, H3. apply Z.leb_le in H4.
+    repeat split; try assumption. destruct (r_evolved_sizes r); [reflexivity|discriminate].
+  - apply implb_true_iff. intro L. apply Qle_bool_iff in L. destruct (H t eq_refl L) as [H1 [H2 [H3 H4]]].
+    rewrite H1, H2, H3. apply Z.leb_le in H4. rewrite H4. reflexivity.
+  - intros t E. discriminate.
+  - reflexivity.
+Qed.
+
+(* pairs of (recorded population before a step, the population the step produced) *)
+Lemma h_stagnation_spec : forall r,
+  h_stagnation r = true <->
+  (forall a b, In (a, b) (step_pairs (r_pops r)) ->
+     (forall m, esi (r_lim r) = Some (S m) -> p_stag a < S m) /\
+     (forall e, est (r_lim r) = Some e -> (p_stagdur a < e)%Q)).
+Proof.
+  intro r. unfold h_stagnation. rewrite forallb_forall. split; intro H.
+  - intros a b Hin. specialize (H (a, b) Hin). cbn [fst] in H. apply andb_true_iff in H as [H1 H2]. split.
+    + intros m E. rewrite E in H1. apply Nat.ltb_lt in H1. exact H1.
+    + intros e E. rewrite E in H2. apply Qltb_true in H2. exact H2.
+  - intros [a b] Hin. destruct (H a b Hin) as [H1 H2]. cbn [fst]. apply andb_true_iff. split.
+    + destruct (esi (r_lim r)) as [[|m]|]; try reflexivity. apply Nat.ltb_lt. exact (H1 m eq_refl).
+    + destruct (est (r_lim r)) as [e|]; [|reflexivity]. apply Qltb_true. exact (H2 e eq_refl).
 Qed.
